@@ -436,6 +436,135 @@ fn exp_nodes(m: &mut M, n: u64) {
     }
 }
 
+/// mathematical functions over every structural value (significand shapes x low-word classes) at the exponents
+/// where their behaviour changes: special high words (1, powers of two, 1.5, all ones) WITH every kind of low word,
+/// both signs where the domain allows
+fn functions(m: &mut M, n: u64, group: &str) {
+    let mut deal = Deal { idx: 0, n: n.max(1), slice: m.slice };
+    let table: Vec<(&str, Vec<i32>, bool)> = match group {
+        "exp" => vec![
+            ("exp", vec![-60, -30, -9, -8, -7, -3, -2, -1, 0, 1, 2, 3, 5, 8, 9], true),
+            ("exp_m1", vec![-60, -30, -9, -8, -7, -2, -1, 0, 1, 5, 9], true),
+            ("exp2", vec![-60, -2, -1, 0, 1, 2, 5, 9], true),
+        ],
+        "log" => vec![
+            ("ln", vec![-1000, -500, -60, -2, -1, 0, 1, 2, 52, 53, 60, 500, 959], false),
+            ("log2", vec![-1000, -60, -1, 0, 1, 53, 959], false),
+            ("log10", vec![-1000, -60, -1, 0, 1, 3, 53, 959], false),
+            ("ln_1p", vec![-60, -30, -9, -8, -7, -2, -1, 0, 1, 52, 53, 54, 60, 94, 107, 500], true),
+        ],
+        "trig" => vec![
+            ("sin", vec![-60, -30, -2, -1, 0, 1, 2, 3, 10, 19], true),
+            ("cos", vec![-60, -30, -2, -1, 0, 1, 2, 3, 10, 19], true),
+            ("tan", vec![-60, -30, -2, -1, 0, 1, 2, 3, 10, 19], true),
+        ],
+        "ang" => vec![
+            ("to_degrees", vec![-449, -60, -7, -6, -1, 0, 1, 5, 7, 8, 448], true),
+            ("to_radians", vec![-449, -60, -1, 0, 1, 5, 6, 7, 8, 448], true),
+        ],
+        "atrig" => vec![
+            ("asin", vec![-60, -30, -3, -2, -1, 0], true),
+            ("acos", vec![-60, -30, -3, -2, -1, 0], true),
+            ("atan", vec![-60, -30, -3, -2, -1, 0, 1, 2, 3, 10, 59], true),
+        ],
+        _ => vec![
+            ("sinh", vec![-60, -30, -9, -2, -1, 0, 1, 2, 5, 9], true),
+            ("cosh", vec![-60, -30, -9, -2, -1, 0, 1, 2, 5, 9], true),
+            ("tanh", vec![-60, -30, -9, -2, -1, 0, 1, 2, 5], true),
+            ("asinh", vec![-60, -30, -2, -1, 0, 1, 2, 27, 28, 29, 59], true),
+            ("acosh", vec![0, 1, 2, 27, 28, 29, 59], true),
+            ("atanh", vec![-60, -30, -3, -2, -1], true),
+        ],
+    };
+    for (op, exps, both) in table {
+        for e in exps {
+            for (hi, lo) in values_at(e) {
+                for s in [1.0, -1.0] {
+                    if s < 0.0 && !both {
+                        continue;
+                    }
+                    if !deal.take() {
+                        continue;
+                    }
+                    m.group_every(30, "lattice");
+                    if !m.load(0, s * hi, s * lo) {
+                        continue;
+                    }
+                    m.call(if group == "ang" { "misc" } else { "elem" }, op, "inh", Some(1), &[A::R(0)]);
+                }
+            }
+        }
+    }
+}
+
+/// roots and integer powers (C13) over every structural value: sqrt / cbrt at both parities of the exponent and at
+/// the ends of the stated range, hypot against partners at the exponent differences where one square vanishes
+/// below the other, powi for every small exponent, the powers of two and the extreme exponents, both signs of
+/// the base and of the exponent, with the reciprocal needed by the bit-identity powi(x,-n) == recip(powi(x,n))
+fn powers(m: &mut M, n: u64) {
+    let mut deal = Deal { idx: 0, n: n.max(1), slice: m.slice };
+    for e in [-899, -500, -3, -2, -1, 0, 1, 2, 3, 500, 898] {
+        for (hi, lo) in values_at(e) {
+            if !deal.take() {
+                continue;
+            }
+            m.group_every(30, "lattice");
+            if !m.load(0, hi, lo) {
+                continue;
+            }
+            m.call("elem", "sqrt", "inh", Some(1), &[A::R(0)]);
+            m.call("elem", "cbrt", "inh", Some(1), &[A::R(0)]);
+            m.call("arith", "neg", "v", Some(2), &[A::R(0)]);
+            m.call("elem", "cbrt", "inh", Some(1), &[A::R(2)]);
+            m.call("elem", "sqrt", "inh", Some(1), &[A::R(2)]);
+        }
+    }
+    for e in [-399, -1, 0, 1, 398] {
+        for (hi, lo) in values_at(e) {
+            for d in [0, 1, -1, 26, -27, 52, -53, 54, -60] {
+                for sig in [SIGS[0], SIGS[3], SIGS[9]] {
+                    if !deal.take() {
+                        continue;
+                    }
+                    let b = word(sig, e + d, false);
+                    if !b.is_finite() || exponent(b).abs() > 399 {
+                        continue;
+                    }
+                    m.group_every(30, "lattice");
+                    if !m.load(0, hi, lo) || !m.load(1, -b, 0.0) {
+                        continue;
+                    }
+                    m.call("elem", "hypot", "inh", Some(2), &[A::R(0), A::R(1)]);
+                    m.call("elem", "hypot", "inh", Some(2), &[A::R(1), A::R(0)]);
+                }
+            }
+        }
+    }
+    let ns: [i64; 22] = [0, 1, 2, 3, 4, 5, 7, 8, 15, 16, 17, 31, 32, 33, 64, 100, 127, 1000, 65536, 1 << 30, i32::MAX as i64, 1 << 31];
+    for e in [-1, 0, 1, -30, 30] {
+        for (hi, lo) in values_at(e) {
+            for s in [1.0, -1.0] {
+                for k in ns {
+                    if !deal.take() {
+                        continue;
+                    }
+                    m.group("lattice");
+                    if !m.load(0, s * hi, s * lo) {
+                        continue;
+                    }
+                    if k <= i32::MAX as i64 {
+                        m.call("pow", "powi", "inh", Some(1), &[A::R(0), A::I(false, k as u128, "i32")]);
+                        m.call("arith", "recip", "inh", Some(2), &[A::R(1)]);
+                    }
+                    if k > 0 {
+                        m.call("pow", "powi", "inh", Some(3), &[A::R(0), A::I(true, k as u128, "i32")]);
+                    }
+                }
+            }
+        }
+    }
+}
+
 pub fn run(m: &mut M, _r: &mut Rng, family: &str, n: u64) -> bool {
     match family {
         "lattice_add" => binary(m, "add", n, &[(0, 0), (-1000, 0), (999, 0), (-1020, 0)]),
@@ -448,6 +577,13 @@ pub fn run(m: &mut M, _r: &mut Rng, family: &str, n: u64) -> bool {
         "lattice_new" => new_words(m, n),
         "lattice_rem" => rems(m, n),
         "exp_nodes" => exp_nodes(m, n),
+        "lattice_pow" => powers(m, n),
+        "lattice_exp" => functions(m, n, "exp"),
+        "lattice_log" => functions(m, n, "log"),
+        "lattice_trig" => functions(m, n, "trig"),
+        "lattice_atrig" => functions(m, n, "atrig"),
+        "lattice_hyp" => functions(m, n, "hyp"),
+        "lattice_ang" => functions(m, n, "ang"),
         _ => return false,
     }
     true
